@@ -48,7 +48,7 @@ def check(seed, tier):
         "earlier larger slot, loads of the original slot and of sub-ranges; every byte is a constant, so the specification judges the "
         "parameter by its true concrete value; the generator steers the constants so that a reloaded, partially overwritten slot (which the "
         "analyzer can only report as unknown) has a true value that needs no warning while the stale element's value would need one",
-        "modelled deviation: the analyzer's interval domain deliberately gives up (Top) on SIGNED OVERFLOW of add/sub/mul/shift-left even "
-        "for constants (e.g. umask((0x7fff..ff << 1) & 0xc4) is not flagged); the generator keeps every add/sub/shift-left step of a "
-        "parameter computation free of signed overflow",
+        "about 1 in 10 single-parameter chains contains an add/sub/mult/shift-left step that overflows the signed range of its width "
+        "(event tag ovf_chain, computed from the inputs alone); the analyzer's interval domain returns Top there, the missed warnings are the "
+        "known finding {ovf_chain: true, warned: 0}; all other chains are kept free of signed overflow",
         "exactly one warning is expected per flagged call, none otherwise; a panic is a violation"])
